@@ -195,7 +195,7 @@ def random_fp_history(rng, T, p, R, D, length, kmax=50, long_vectors=False, pool
 def check_C18(res, tier, seed, replay):
     rng = random.Random(seed)
     res.assumptions += ['operands are kept below 2^15 so that TLC evaluates products exactly in 32 bits',
-                        'SpVecFP registers of one history share one prime p (mixing moduli is outside the property)']
+                        'SpVecFP registers of one history are vectors over one prime p (binary operations mixing moduli are outside the property); assignment into a default-constructed vector (class default modulus) is covered and must carry p over']
     wd = vlib.scratch('C18')
     try:
         exe = harness()
